@@ -9,6 +9,9 @@ vars == <<l, st>>
 SeqToSet(sq) == {sq[i] : i \in 1 .. Len(sq)}
 StOf(cfg, o) ==
   [ kind |-> cfg.kind, id |-> o.id, start |-> o.start, dur |-> cfg.dur, genesis |-> cfg.genesis, first |-> cfg.first, now |-> o.now,
+    \* the epoch from which the current duration counts (the first one; after a re-configuration the one current then)
+    anchor |-> IF "anchor" \in DOMAIN cfg THEN cfg.anchor
+               ELSE [id |-> IF cfg.kind = "manager" THEN cfg.first ELSE One, start |-> cfg.genesis],
     hooks |-> SeqToSet(o.hooks),
     logs |-> [h \in AllHooks |-> [i \in 1 .. Len(o.logs[h]) |-> [id |-> o.logs[h][i].id, start |-> o.logs[h][i].start]]] ]
 
@@ -26,12 +29,23 @@ Unchanged(ev, t) ==
 \* its own id, with the start time it was created with
 ByIdChecks(t, byid) ==
   << <<"C20.query.epoch-by-id=the-epoch-that-was-created",
-        \A i \in DOMAIN byid : byid[i].id = byid[i].asked /\ byid[i].start = t.genesis ++ ((byid[i].id -- t.first) ** t.dur)>> >>
+        \A i \in DOMAIN byid :
+          /\ byid[i].id = byid[i].asked
+          \* (epochs older than the last re-configuration were created under another duration: not judged)
+          /\ (t.anchor.id \preceq byid[i].id => byid[i].start = t.anchor.start ++ ((byid[i].id -- t.anchor.id) ** t.dur))>> >>
+\* the admin re-configures the clock (C20: "the configured duration"; design rule: the configuration is the specification's
+\* own - the duration in force is the one the last accepted update SET)
+ReconfigNext(s, d) == [s EXCEPT !.dur = d, !.anchor = [id |-> s.id, start |-> s.start]]
+ReconfigDur(ev) == ev.args.dur
 EvChecks(ev, t) ==
   (CASE ev.ev = "create" ->
           IF ev.res = "ok" THEN CreateChecks(st) \o ObsChecks(CreateNext(st), t)
           ELSE Unchanged(ev, t) \o << <<"C20.create.due-but-rejected", ~Due(st)>> >>
      [] ev.ev = "tick" -> ObsChecks(TickNext(st, ev.args.to), t)
+     [] ev.ev = "reconfig" ->
+          IF ev.res = "ok"
+          THEN << <<"C16.config.admin-only", ev.actor = "owner">> >> \o ObsChecks(ReconfigNext(st, ReconfigDur(ev)), t)
+          ELSE Unchanged(ev, t) \o << <<"C16.config.by-admin-rejected", ev.actor # "owner">> >>
      [] ev.ev = "addhook" ->
           IF ev.res = "ok"
           THEN << <<"C16.hooks.admin-only", ev.actor = "owner">> >> \o ObsChecks(AddHookNext(st, ev.args.x), t)
@@ -53,7 +67,10 @@ Next ==
   /\ l <= Len(Rec)
   /\ LET ev == Rec[l] IN
        IF ev.ev = "reset" THEN Report(ev, Failed(ClockChecks(StOf(ev.cfg, ev.obs)) \o ByIdChecks(StOf(ev.cfg, ev.obs), ev.obs.byid))) /\ st' = StOf(ev.cfg, ev.obs)
-       ELSE LET t == StOf(st, ev.obs) IN Report(ev, Failed(EvChecks(ev, t))) /\ st' = t
+       ELSE LET t0 == StOf(st, ev.obs)
+                t == IF ev.ev = "reconfig" /\ ev.res = "ok"
+                     THEN [t0 EXCEPT !.dur = ReconfigDur(ev), !.anchor = [id |-> st.id, start |-> st.start]] ELSE t0
+            IN Report(ev, Failed(EvChecks(ev, t))) /\ st' = t
   /\ l' = l + 1
 Spec == Init /\ [][Next]_vars
 Consumed ==
